@@ -733,10 +733,12 @@ class Executor(object):
             elif a.kind == "ref" and b.kind == "ref":
                 r = a.t == b.t
             elif a.kind == b.kind and a.kind in ("bool",):
-                r = z3.And(self._nn_eq(a, b), a.t == b.t)
-            elif a.kind == b.kind and a.kind in ("int", "bits"):
-                # identity of ints: only None-identity is meaningful; value identity for small ints
-                r = z3.And(self._nn_eq(a, b), z3.Or(self.is_none(a), self._eq(a, b)))
+                an, bn = self.is_none(a), self.is_none(b)
+                r = z3.Or(z3.And(an, bn), z3.And(z3.Not(an), z3.Not(bn), a.t == b.t))
+            elif a.kind == b.kind and a.kind in ("int", "bits", "str", "real"):
+                # identity of scalars: None-identity, and value identity (small ints / interned strings)
+                an, bn = self.is_none(a), self.is_none(b)
+                r = z3.Or(z3.And(an, bn), z3.And(z3.Not(an), z3.Not(bn), self._eq(a, b)))
             else:
                 raise Unsupported("is between %s and %s" % (a.kind, b.kind))
             return z3.Not(r) if neg else r
